@@ -1,11 +1,14 @@
 ------------------------------- MODULE SortScale -------------------------------
 (* Sorting at SCALE (C20): long inputs - lengths across the 40 / 41 boundary below   *)
 (* which an implementation may switch its pivot rule, and lengths of a thousand and  *)
-(* more already sorted / reversed / constant elements, where the recursion of the     *)
-(* partition-exchange sort is as deep as the input is long - cannot be enumerated    *)
-(* like the arrays of Quicksort.tla.  What makes them decidable is that the clauses   *)
-(* of the statement are O(n) predicates that can be evaluated on a run-length         *)
-(* encoding of the arrays (Algo!SortFailingR on ramps).  This module                  *)
+(* more already sorted / reversed / constant elements, where a partition-exchange    *)
+(* sort that makes a call for either part nests as deep as the input is long (the    *)
+(* pinned code: RecursionError at the interpreter's default limit; Quicksort.tla     *)
+(* SmallerFirst / DepthInv is the model of the repair) - cannot be enumerated like   *)
+(* the arrays of Quicksort.tla.  What makes them decidable is that the clauses of    *)
+(* the statement are O(n) predicates that can be evaluated on a run-length encoding  *)
+(* of the arrays (Algo!SortFailingR on ramps).  The real sorts run at the default    *)
+(* recursion limit; an exception is the clause unexpected_error.  This module        *)
 (*   (1) checks the LAW on the small scope (RampLaw): for every ramp-encoded case and *)
 (*       every ramp-encoded observation, SortFailingR gives exactly the clauses that  *)
 (*       SortFailing gives on the written-out arrays - in particular the verdict does *)
